@@ -953,6 +953,23 @@ Lemma pad_ops_fixed_ok :
 Proof. vm_compute. reflexivity. Qed.
 
 (* ---------------------------------------------------------------- the direct oracle *)
+(* the defect class "SetMaterials tidies the slice it is handed in place, and the slice is another mesh's Materials()" *)
+Definition tidy_ops : list op :=
+  [ONew Triangle [[0]; [1]; [2]]%Z 0; OSetMaterials 0 [[0; 7]; [1; 8]]%Z 0; OShareMats 0 1].
+
+Lemma accessor_write_refuted_proof :
+  exists ops k t t', t <= t' /\ k < length (pool (run_tidy grow_double ops t)) /\
+    observe_member (run_tidy grow_double ops t') k <> observe_member (run_tidy grow_double ops t) k.
+Proof.
+  exists tidy_ops, 1, 2, 3. split; [lia|]. split; [vm_compute; lia|].
+  vm_compute. discriminate.
+Qed.
+
+(* ... and on the repaired model the same history leaves member 1 alone *)
+Lemma tidy_ops_fixed_ok :
+  observe_member (run grow_double true tidy_ops 3) 1 = observe_member (run grow_double true tidy_ops 2) 1.
+Proof. vm_compute. reflexivity. Qed.
+
 Lemma immutableb_spec {A} (segs : list (list A)) :
   immutableb segs = true <-> forall sg, In sg segs -> exists x, sg = [x].
 Proof.
